@@ -75,3 +75,123 @@ func (n *VerifNode) HandleOwn(k int) (panicked string, ok bool) {
 	}
 	return n.runOne(func() { n.cs.handleMsg(*picked) }), true
 }
+
+// ---- WAL-logged handling and restart support (C01 restart stream) ----
+//
+// The *W handlers do what receiveRoutine does for one item: write it to the WAL (peer messages and
+// timeouts with Write, own messages with WriteSync), then handle it. With the default nilWAL they
+// behave like the handlers above. OpenVerifWAL gives a never-started node a real WAL;
+// CloseVerifWAL flushes and stops it (the node can then be "restarted": a new State on the same
+// stores and WAL file, started through the real fast-sync hand-over, see the harness).
+
+// OpenVerifWAL opens (or re-opens, appending) the WAL file for this node.
+func (n *VerifNode) OpenVerifWAL(path string) error {
+	w, err := n.cs.OpenWAL(path)
+	if err != nil {
+		return err
+	}
+	n.cs.wal = w
+	return nil
+}
+
+// CloseVerifWAL flushes and stops the node's WAL (no-op for the nilWAL).
+func (n *VerifNode) CloseVerifWAL() {
+	if _, ok := n.cs.wal.(nilWAL); ok {
+		return
+	}
+	n.cs.wal.Stop() //nolint:errcheck
+	n.cs.wal = nilWAL{}
+}
+
+func (n *VerifNode) runW(item WALMessage, f func(), drain bool) (panicked string) {
+	defer func() {
+		if r := recover(); r != nil {
+			panicked = fmt.Sprint(r)
+		}
+	}()
+	if item != nil {
+		if err := n.cs.wal.Write(item); err != nil {
+			panic(fmt.Sprintf("verif: WAL write failed: %v", err))
+		}
+	}
+	f()
+	for drain {
+		n.drainStats()
+		if n.cs.Height != n.height {
+			return ""
+		}
+		select {
+		case mi := <-n.cs.internalMsgQueue:
+			if err := n.cs.wal.WriteSync(mi); err != nil {
+				panic(fmt.Sprintf("verif: WAL write failed: %v", err))
+			}
+			n.cs.handleMsg(mi)
+		default:
+			return ""
+		}
+	}
+	n.drainStats()
+	return ""
+}
+
+func (n *VerifNode) HandleProposalW(p *types.Proposal, peer p2p.ID, drain bool) string {
+	mi := msgInfo{&ProposalMessage{p}, peer}
+	return n.runW(mi, func() { n.cs.handleMsg(mi) }, drain)
+}
+
+func (n *VerifNode) HandleBlockPartW(height int64, round int32, part *types.Part, peer p2p.ID, drain bool) string {
+	mi := msgInfo{&BlockPartMessage{height, round, part}, peer}
+	return n.runW(mi, func() { n.cs.handleMsg(mi) }, drain)
+}
+
+func (n *VerifNode) HandleVoteW(v *types.Vote, peer p2p.ID, drain bool) string {
+	mi := msgInfo{&VoteMessage{v}, peer}
+	return n.runW(mi, func() { n.cs.handleMsg(mi) }, drain)
+}
+
+func (n *VerifNode) HandleTimeoutW(height int64, round int32, step cstypes.RoundStepType, drain bool) string {
+	ti := timeoutInfo{0, height, round, step}
+	return n.runW(ti, func() { n.cs.handleTimeout(ti, n.cs.RoundState) }, drain)
+}
+
+// HandleTxsAvailableW: receiveRoutine does not log the mempool's txs-available signal.
+func (n *VerifNode) HandleTxsAvailableW(drain bool) string {
+	return n.runW(nil, func() { n.cs.handleTxsAvailable() }, drain)
+}
+
+// HandleOwnW is HandleOwn with the WriteSync receiveRoutine does for own messages.
+func (n *VerifNode) HandleOwnW(k int) (panicked string, ok bool) {
+	var all []msgInfo
+	for {
+		select {
+		case mi := <-n.cs.internalMsgQueue:
+			all = append(all, mi)
+			continue
+		default:
+		}
+		break
+	}
+	var picked *msgInfo
+	for i := range all {
+		if i == k {
+			picked = &all[i]
+			continue
+		}
+		n.cs.internalMsgQueue <- all[i]
+	}
+	if picked == nil {
+		return "", false
+	}
+	return n.runW(nil, func() {
+		if err := n.cs.wal.WriteSync(*picked); err != nil {
+			panic(fmt.Sprintf("verif: WAL write failed: %v", err))
+		}
+		n.cs.handleMsg(*picked)
+	}, false), true
+}
+
+// State gives the wrapped consensus state (to wire it into a Reactor for a restart).
+func (n *VerifNode) State() *State { return n.cs }
+
+// DoWALCatchup reports the flag SwitchToConsensus(state, skipWAL) leaves in the consensus state.
+func (n *VerifNode) DoWALCatchup() bool { return n.cs.doWALCatchup }
